@@ -284,8 +284,14 @@ Ltac site_red := cbv beta iota zeta delta [d2_site call_entry2 fst snd]; ev;
                  try (let t := lazymatch goal with |- ?l = _ => l end in
                       let t' := eval vm_compute in t in change t with t').
 
+(* Wait and Count first: they are cheap, and a source that fails there fails fast *)
 Ltac wg_checklist_tac dj :=
   constructor;
+  [ idtac | idtac | idtac | idtac | idtac | idtac | idtac
+  | (* ck_sw *) site_red; fin
+  | (* ck_w *) intros; ev; fin
+  | (* ck_sc *) site_red; fin
+  | (* ck_c *) intros; ev; fin ];
   [ (* ck_b *) intros; reflexivity
   | (* ck_s0 *) intros d j; dj j; site_red; fin
   | (* ck_s1 *) intros d j ov oc och; dj j; site_red; fin
@@ -294,11 +300,7 @@ Ltac wg_checklist_tac dj :=
   | (* ck_o1 *) intros d j v n ch cl nx; dj j; ev; fin
   | (* ck_o2 *) intros d j ov oc och v n ch cl nx; dj j; mach; ev; fin
   | (* ck_o3 *) intros d j ov oc x v n ch cl nx H1 H2; apply Z.eqb_eq in H1;
-                apply Nat.eqb_neq in H2; dj j; mach; ev; fin
-  | (* ck_sw *) site_red; fin
-  | (* ck_w *) intros; ev; fin
-  | (* ck_sc *) site_red; fin
-  | (* ck_c *) intros; ev; fin ].
+                apply Nat.eqb_neq in H2; dj j; mach; ev; fin ].
 
 Ltac dj_unit j := destruct j.
 Ltac dj_junk j := destruct j as [|? ? ?].
